@@ -27,17 +27,17 @@ import (
 )
 
 type c10Req struct {
-	Sess    int  `json:"sess"`
-	ID      int  `json:"id"`
-	StartMs int  `json:"start_ms"`
-	Pre     int  `json:"pre"`     // notifications sent while handling
-	GapMs   int  `json:"gap_ms"`  // pause between them
-	S2C     bool `json:"s2c"`     // a server->client request (roots/list) issued while handling
-	CutMs   int  `json:"cut_ms"`  // -1: never; else the exchange is cut and resumed (needs the event store)
-	Inst    int  `json:"inst"`    // distinguishes requests that (deliberately) share session and id
-	Late    bool `json:"late,omitempty"`     // one more notification with the request's context after the handler returned
+	Sess       int  `json:"sess"`
+	ID         int  `json:"id"`
+	StartMs    int  `json:"start_ms"`
+	Pre        int  `json:"pre"`                   // notifications sent while handling
+	GapMs      int  `json:"gap_ms"`                // pause between them
+	S2C        bool `json:"s2c"`                   // a server->client request (roots/list) issued while handling
+	CutMs      int  `json:"cut_ms"`                // -1: never; else the exchange is cut and resumed (needs the event store)
+	Inst       int  `json:"inst"`                  // distinguishes requests that (deliberately) share session and id
+	Late       bool `json:"late,omitempty"`        // one more notification with the request's context after the handler returned
 	S2CTimeout bool `json:"s2c_timeout,omitempty"` // the nested request is not answered in time: the server cancels it
-	Drop    bool `json:"drop,omitempty"`     // cut and never resumed (no event store): the id is re-used by a later request
+	Drop       bool `json:"drop,omitempty"`        // cut and never resumed (no event store): the id is re-used by a later request
 }
 
 type c10Spec struct {
@@ -100,7 +100,7 @@ func TestVerifC10(t *testing.T) {
 			"0..3 out-of-band notifications per session; stateful/stateless x SSE/JSON responses, with/without event store; 1/4 of SSE requests with a store are cut after 0..7 ms and resumed with Last-Event-ID. " +
 			"non-trivial: >=2 sessions or >=2 concurrent requests in one session, and >=3 messages routed. distinct = distinct (mode, store, request pattern)",
 		MinNontrivial: 100,
-		Assumptions: []string{"the raw client keeps every stream it opened attached until the request completes (except deliberate cuts)", "a message emitted after its request stream was cut and before the resume may be delivered only by the resume"},
+		Assumptions:   []string{"the raw client keeps every stream it opened attached until the request completes (except deliberate cuts)", "a message emitted after its request stream was cut and before the resume may be delivered only by the resume"},
 	}
 	vh.Run(t, cfg, func(c *vh.Case) {
 		spec := genC10(c.R)
@@ -117,7 +117,9 @@ type c10Tag struct {
 	Inst int    `json:"i"`
 }
 
-func (t c10Tag) String() string { return fmt.Sprintf("s%d/r%d/%s%d#%d", t.Sess, t.Req, t.Kind, t.Seq, t.Inst) }
+func (t c10Tag) String() string {
+	return fmt.Sprintf("s%d/r%d/%s%d#%d", t.Sess, t.Req, t.Kind, t.Seq, t.Inst)
+}
 
 func parseC10Tag(s string) (c10Tag, bool) {
 	var t c10Tag
@@ -131,12 +133,12 @@ func parseC10Tag(s string) (c10Tag, bool) {
 func (t c10Tag) enc() string { b, _ := json.Marshal(t); return "TAG" + string(b) }
 
 type c10Seen struct {
-	Tag      c10Tag
-	ExSess   int    // session index of the exchange that carried it (-1: stateless)
-	ExKind   string // post | standalone | resume
-	ExReq    int    // request that opened the exchange (0 for standalone)
-	ExInst   int
-	Wire     string
+	Tag    c10Tag
+	ExSess int    // session index of the exchange that carried it (-1: stateless)
+	ExKind string // post | standalone | resume
+	ExReq  int    // request that opened the exchange (0 for standalone)
+	ExInst int
+	Wire   string
 }
 
 func runC10(c *vh.Case, spec c10Spec) {
@@ -588,7 +590,6 @@ func runC10(c *vh.Case, spec c10Spec) {
 }
 
 var _ = testing.Short
-
 
 // yieldingStore lets other goroutines runnable at this instant run inside Open
 // (a store is allowed to be slow), widening check-then-act windows around it.
